@@ -76,17 +76,7 @@ def classify(content):
     return None
 
 
-def all_fns(content):
-    for _, v in content["vars"] + content["pars"]:
-        if "ia" in v:
-            yield v["ia"]
-    for _, f in content["derived"]:
-        yield f
-    for _, r in content["rxns"]:
-        yield r
-        for _, cj in r["st"]:
-            if "c" not in cj:
-                yield cj
+all_fns = cg.all_fns
 
 
 def to_lean_wire(content):
@@ -284,39 +274,7 @@ def evaluate(cases, use_driver=True):
 # --------------------------------------------------------------------------- generator
 
 
-class Namer:
-    """chooses `__name__`s: fresh, shared (same function object reused with other arguments) or colliding"""
-
-    def __init__(self, rng, p_share, p_collide, p_cross):
-        self.rng, self.p_share, self.p_collide, self.p_cross = rng, p_share, p_collide, p_cross
-        self.reg = []  # (name, e, arity)
-        self.n = 0
-
-    def __call__(self, rng, role, d):
-        arity = len(d["args"])
-        same = [r for r in self.reg if r[2] == arity]
-        x = rng.random()
-        if same and x < self.p_share:
-            name, e, _ = rng.choice(same)
-            d["e"] = copy.deepcopy(e)
-            return name
-        if same and x < self.p_share + self.p_collide:
-            name = rng.choice(same)[0]          # another function, same __name__, same arity
-            self.reg.append((name, d["e"], arity))
-            return name
-        if same and x < self.p_share + self.p_collide + self.p_cross:
-            base = rng.choice(same)[0]          # names that meet the generator's derived keys (same arity)
-            name = rng.choice([f"init_{base}", f"r0_stoich_{base}", f"r1_stoich_{base}"])
-            while any(r[0] == name and r[2] == arity for r in self.reg) and rng.random() < 0.7:
-                name += "_"                     # ... and the names the generator would move on to
-            if any(r[0] == name and r[2] != arity for r in self.reg) or len(name) > 40:
-                name = f"f{self.n}"
-                self.n += 1
-        else:
-            name = f"f{self.n}"
-            self.n += 1
-        self.reg.append((name, d["e"], arity))
-        return name
+Namer = cg.Namer
 
 
 def gen_case(ctx, i):
